@@ -13,8 +13,9 @@ CONSTANT MaxMembers
 VARIABLES T, v, kind
 
 PT == <<"dc", "P", << <<"x", <<"int">>, <<"req">>, <<>> >>, <<"y", <<"str">>, <<"val", S("d")>>, <<>> >> >>, <<>> >>
+\* containers whose packer / unpacker also accepts text (a str is iterable) are members too
 Members == { <<"int">>, <<"float">>, <<"bool">>, <<"str">>, <<"none">>, <<"date">>, <<"list", <<"int">> >>,
-             <<"dict", <<"str">>, <<"int">> >>, PT }
+             <<"dict", <<"str">>, <<"int">> >>, PT, <<"vtuple", <<"str">> >>, <<"frozenset", <<"str">> >> }
 Seqs(n) == { s \in [1..n -> Members] : \A i, j \in 1..n : i # j => s[i] # s[j] }
 Unions == { <<"union", s>> : s \in UNION { Seqs(n) : n \in 2..MaxMembers } }
 Literals == { <<"literal", << I(1), S("a") >> >>, <<"literal", << S("1"), I(1), B(TRUE) >> >>,
